@@ -80,6 +80,14 @@ func shapeSource(i int, shape string, next string) (string, error) {
 		return fmt.Sprintf("func %s(s string) (int, error) { return strconv.Atoi(s) }\n", f), nil
 	case "iface":
 		return fmt.Sprintf("type i%d interface{ Do() (int, error) }\n\nfunc %s(x i%d) (int, error) { return x.Do() }\n\ntype m%d struct{}\n\nfunc (m%d) Do() (int, error) { return 3, errX }\n", i, f, i, i, i), nil
+	case "chain": // a call chain over two package boundaries: x1.G returns x2.H(), which returns a concrete error type
+		return fmt.Sprintf("func %s() error { return x1.G() }\n", f), nil
+	case "closure3": // a func literal with FEWER results than the enclosing function, whose return lists a single-result call first
+		return fmt.Sprintf("func %s() (n int, s string, err error) {\n\terr = r%d(func() (bool, error) {\n\t\tif k%d() > 1 {\n\t\t\treturn false, errX\n\t\t}\n\t\treturn b%d(), nil\n\t})\n\treturn k%d(), \"s\", err\n}\n\n"+
+			"func r%d(attempt func() (bool, error)) error {\n\tdone, err := attempt()\n\tif err != nil || !done {\n\t\treturn err\n\t}\n\treturn nil\n}\n\nfunc b%d() bool { return true }\n\nfunc k%d() int { return 1 }\n",
+			f, i, i, i, i, i, i, i), nil
+	case "spread": // a slice spread into a variadic parameter
+		return fmt.Sprintf("func %s(c bool) error {\n\tvar errs []error\n\terrs = append(errs, errX)\n\tif c {\n\t\treturn errors.Join(errs...)\n\t}\n\treturn j%d(\"m\", errs...)\n}\n\nfunc j%d(msg string, errs ...error) error {\n\tfor _, e := range errs {\n\t\tif e != nil {\n\t\t\treturn e\n\t\t}\n\t}\n\treturn nil\n}\n", f, i, i), nil
 	case "assigned":
 		return fmt.Sprintf("func %s() error {\n\tvar err error\n\terr = errX\n\tif err != nil {\n\t\treturn err\n\t}\n\treturn nil\n}\n", f), nil
 	}
@@ -90,7 +98,7 @@ var noArgPair = map[string]bool{"named": true, "forward": true}
 
 func programSource(pkg string, shapes []string) (string, error) {
 	var b strings.Builder
-	fmt.Fprintf(&b, "package %s\n\nimport (\n\t\"errors\"\n\t\"strconv\"\n)\n\nvar errX = errors.New(\"x\")\n\nvar _ = strconv.Itoa\n\n", pkg)
+	fmt.Fprintf(&b, "package %s\n\nimport (\n\t\"errors\"\n\t\"strconv\"\n\n\t\"example.com/r/x1\"\n)\n\nvar errX = errors.New(\"x\")\n\nvar _ = strconv.Itoa\n\nvar _ = x1.G\n\n", pkg)
 	for i, sh := range shapes {
 		next := ""
 		ni := (i + 1) % len(shapes)
@@ -214,6 +222,7 @@ func resultsChild(args []string) error {
 		}
 	}
 	fmt.Fprintf(out, "N %d\n", len(units))
+	first := map[int]string{}
 	for idx := skipTo; idx < len(units); idx++ {
 		un := units[idx]
 		key := resultsUnit{Pkg: un.p.Pkg().Path(), Name: un.fn.FullName()}
@@ -269,8 +278,31 @@ func resultsChild(args []string) error {
 		obs["alts"] = alts
 		ob, _ := json.Marshal(obs)
 		fmt.Fprintf(out, "D %d %s\n", idx, ob)
+		if !pn.Panicked {
+			first[idx] = fmt.Sprintf("%d %s", n, res.String())
+		}
 	}
 	fmt.Fprintf(out, "E\n")
+	// second pass: everything is asked once more, now that every other function of every package has been asked
+	// ("the answer is the same on every call" - whatever was asked in between)
+	guard := time.AfterFunc(120*time.Second, func() { os.Exit(9) })
+	for idx := skipTo; idx < len(units); idx++ {
+		want, ok := first[idx]
+		if !ok {
+			continue
+		}
+		un := units[idx]
+		same := false
+		core.Try(func() {
+			res, n := un.p.ResultsOf(un.fn)
+			same = fmt.Sprintf("%d %s", n, res.String()) == want
+		})
+		if !same {
+			fmt.Fprintf(out, "R %d\n", idx)
+		}
+	}
+	guard.Stop()
+	fmt.Fprintf(out, "E2\n")
 	return out.Close()
 }
 
@@ -304,6 +336,18 @@ func superviseResults(self, dir string, onlyLocal bool, emitUnit func(key result
 		pendingIdx := -1
 		var pendingKey resultsUnit
 		timedOut := false
+		type doneUnit struct {
+			key resultsUnit
+			obs map[string]any
+		}
+		var buffered []doneUnit
+		bufIdx := map[int]int{}
+		flush := func() {
+			for _, d := range buffered {
+				emitUnit(d.key, d.obs)
+			}
+			buffered = nil
+		}
 		for sc.Scan() {
 			ln := sc.Text()
 			switch {
@@ -320,9 +364,17 @@ func superviseResults(self, dir string, onlyLocal bool, emitUnit func(key result
 					f.Close()
 					return examined, total, e
 				}
-				emitUnit(pendingKey, obs)
+				obs["later_equal"] = true
+				bufIdx[pendingIdx] = len(buffered)
+				buffered = append(buffered, doneUnit{pendingKey, obs})
 				examined++
 				pendingIdx = -1
+			case strings.HasPrefix(ln, "R "):
+				var ri int
+				fmt.Sscan(ln[2:], &ri)
+				if bi, ok := bufIdx[ri]; ok {
+					buffered[bi].obs["later_equal"] = false
+				}
 			case strings.HasPrefix(ln, "T "):
 				timedOut = true
 			case ln == "E":
@@ -330,6 +382,7 @@ func superviseResults(self, dir string, onlyLocal bool, emitUnit func(key result
 			}
 		}
 		f.Close()
+		flush()
 		if ended {
 			return examined, total, nil
 		}
@@ -338,7 +391,7 @@ func superviseResults(self, dir string, onlyLocal bool, emitUnit func(key result
 		}
 		// the unit in progress killed the process: fatal error (stack overflow) or time budget
 		emitUnit(pendingKey, map[string]any{"fatal": !timedOut, "timeout": timedOut, "panicked": false, "panic_msg": tail(firstLines(se.String(), 3), 300), "panic_site": "",
-			"declared_n": 0, "n": 0, "lens": []int{}, "not_assignable": []string{}, "again_equal": false, "alts": [][]string{}})
+			"declared_n": 0, "n": 0, "lens": []int{}, "not_assignable": []string{}, "again_equal": false, "later_equal": true, "alts": [][]string{}})
 		examined++
 		skip = pendingIdx + 1
 	}
@@ -396,7 +449,10 @@ func (resultsFam) ExecAll(cases []core.CaseIn, seed int64, emit func(c core.Case
 		if err != nil {
 			return err
 		}
-		files := map[string]string{"go.mod": "module example.com/r\n\ngo 1.24\n"}
+		files := map[string]string{"go.mod": "module example.com/r\n\ngo 1.24\n",
+			// sorted after every g<j>: nothing has been asked of them when the g packages are examined
+			"x1/x1.go": "package x1\n\nimport \"example.com/r/x2\"\n\nfunc G() error { return x2.H() }\n",
+			"x2/x2.go": "package x2\n\ntype Err struct{}\n\nfunc (*Err) Error() string { return \"e\" }\n\nfunc H() error { return &Err{} }\n"}
 		idxOf := map[string]int{}
 		for j := i; j < i+perMod && j < len(synth); j++ {
 			src, err := programSource(fmt.Sprintf("g%d", j), synthCases[j].Shapes)
